@@ -1859,6 +1859,12 @@ int QSexact_solver (mpq_QSdata * p_mpq,
 		mpf_QSfree_prob (p_mpf);
 		p_mpf = 0;
 	}
+	/* every precision has been tried: a status that is still OPTIMAL or
+	 * INFEASIBLE at this point was left behind by a floating point solve or by
+	 * the rational evaluation of a basis, no exact certificate backs it (and
+	 * neither x nor y have been set) */
+	if (*status == QS_LP_OPTIMAL || *status == QS_LP_INFEASIBLE)
+		*status = QS_LP_UNSOLVED;
 	/* ending */
 CLEANUP:
 #ifdef QSX_VERIF
